@@ -972,6 +972,31 @@ int main(void) {
         drop_prods(&ps);
       }
       free(txt);
+    } else if (!strcmp(tv[0], "pr") && n >= 2) {
+      // pr <dump>: the tree printer and the printer of the binary form under every flag set
+      // (PRETTY = 1, CODEPOINTS = 2, PRETTY_INDENT2 = 5, PRETTY_INDENT4 = 9)
+      static const int PF[] = { 0, 1, 2, 3, 5, 7, 9, 11 };
+      struct jbl_node *tree = tree_of_dump(tv[1], pool);
+      if (!tree) printf("BAD-DUMP"); else {
+        struct jbl *jbl = 0;
+        iwrc rc = jbl_from_node(&jbl, tree);
+        printf("rc=%s", rcname(rc));
+        for (size_t i = 0; i < sizeof(PF) / sizeof(PF[0]); ++i) {
+          struct iwxstr *x = iwxstr_create_empty();
+          iwrc r2 = jbn_as_json(tree, jbl_xstr_json_printer, x, (jbl_print_flags_t) PF[i]);
+          printf(" t%d=%s:", PF[i], rcname(r2));
+          if (!r2) puthex(iwxstr_ptr(x), iwxstr_size(x));
+          iwxstr_destroy(x);
+        }
+        for (size_t i = 0; !rc && i < sizeof(PF) / sizeof(PF[0]); ++i) {
+          struct iwxstr *x = iwxstr_create_empty();
+          iwrc r2 = jbl_as_json(jbl, jbl_xstr_json_printer, x, (jbl_print_flags_t) PF[i]);
+          printf(" b%d=%s:", PF[i], rcname(r2));
+          if (!r2) puthex(iwxstr_ptr(x), iwxstr_size(x));
+          iwxstr_destroy(x);
+        }
+        if (jbl) jbl_destroy(&jbl);
+      }
     } else if (!strcmp(tv[0], "dec") && n >= 2) {
       uint8_t *b;
       size_t sz = unhex0(tv[1], &b);
